@@ -222,6 +222,12 @@ pub fn immediate_out_of_range_signed_32(immediate: i32) -> ! {
     panic!("Cannot assemble this Aarch64 instruction. Immediate {immediate} is out of range.")
 }
 
+/// Handler for dynamic aarch64 registers that the instruction cannot encode.
+#[inline(never)]
+pub fn invalid_register(register: u32) -> ! {
+    panic!("Cannot assemble this Aarch64 instruction. Register {register} cannot be encoded.")
+}
+
 
 /// Helper function for validating that a given value can be encoded as a 32-bit logical immediate
 pub fn encode_logical_immediate_32bit(value: u32) -> Option<u16> {
